@@ -74,6 +74,10 @@ def Flags.mut (f : Flags) : Bool := f.w || f.n
 def entryId : Nat := 9
 def gasTab : Nat := 100
 def policyTab : Nat := 102
+/-- ContractManagement: key d < 90 = ID of the deployed auxiliary contract d; key 99 = next available ID. -/
+def mgmtTab : Nat := 103
+/-- Policy's blocked-account list: key = account, present = blocked. -/
+def blockTab : Nat := 104
 /-- Policy.setFeePerByte upper bound (native_policy.go maxFeePerByte). -/
 def maxFeePerByte : Nat := 100000000
 
@@ -82,6 +86,11 @@ inductive NOp where
   | transfer (tok to amt : Nat) (isC : Bool)
   /-- `Policy.setFeePerByte(v)` (the committee witness is supplied by the transaction). -/
   | setFee (v : Nat)
+  /-- `Policy.blockAccount(a)` / `unblockAccount(a)` for a plain account `a` (committee witness supplied). -/
+  | block (a : Nat)
+  | unblock (a : Nat)
+  /-- `ContractManagement.deploy(nef_d, manifest_d)` of the auxiliary contract `d`. -/
+  | deploy (d : Nat)
   deriving Repr, DecidableEq
 
 inductive Tree where
@@ -139,6 +148,26 @@ def natStep (o : NOp) (self : Nat) (f : Flags) (view : Key → Option Nat) : Opt
     if !(f.r && f.w) then none else
     if v > maxFeePerByte then none else
     some ⟨[.set (policyTab, 0) v], [], none⟩
+  | .block a =>
+    -- policy.go blockAccountDeferrable: RequiredFlags States|AllowNotify (HFFaun); already blocked => `false`
+    if !(f.r && f.w && f.n) then none else
+    match view (blockTab, a) with
+    | some _ => some ⟨[], [], none⟩
+    | none => some ⟨[.set (blockTab, a) 1], [], none⟩
+  | .unblock a =>
+    if !(f.r && f.w) then none else
+    match view (blockTab, a) with
+    | some _ => some ⟨[.del (blockTab, a)], [], none⟩
+    | none => some ⟨[], [], none⟩
+  | .deploy d =>
+    -- management.go: RequiredFlags All; "contract already exists" panics; the ID comes from the
+    -- nextAvailableID storage item, which is incremented
+    if !(f.r && f.w && f.c && f.n) then none else
+    match view (mgmtTab, d) with
+    | some _ => none
+    | none =>
+      let id := (view (mgmtTab, 99)).getD 0
+      some ⟨[.set (mgmtTab, 99) (id + 1), .set (mgmtTab, d) id], [(mgmtTab, d)], none⟩
 
 /-! ## Specification semantics -/
 
